@@ -245,7 +245,7 @@ func (m *c41Machine) priceVariant(old *big.Int, label string) *big.Int {
 	}
 }
 
-var c41Prices = []uint64{1, 2, 3, 10, 11, 20, 50, 100, 110, 200, 1000}
+var c41Prices = []uint64{1, 2, 10, 11, 20, 50, 100, 100, 110, 200, 1000}
 
 // genTx draws one transaction. All draws are independent of pool internals except
 // for the pool's virtual nonce (used as one of several nonce bases).
@@ -305,13 +305,13 @@ func (m *c41Machine) genTx() (*types.Transaction, int) {
 	// data and gas
 	var data []byte
 	gas := uint64(21000)
-	switch rapid.IntRange(0, 29).Draw(rt, "dataKind") {
-	case 0:
+	switch rapid.IntRange(0, 39).Draw(rt, "dataKind") {
+	case 0, 1:
 		data = make([]byte, 32*1024+1) // two slots
-	case 1:
+	case 2, 3:
 		data = make([]byte, 70000) // three slots
-	case 2:
-		if rapid.Bool().Draw(rt, "oversized") {
+	case 4:
+		if rapid.IntRange(0, 3).Draw(rt, "oversized") == 0 {
 			data = make([]byte, txMaxSize+1)
 		}
 	}
@@ -321,7 +321,7 @@ func (m *c41Machine) genTx() (*types.Transaction, int) {
 	if kind == "setcode" {
 		gas = 21000 + 2*25000 + 2600*2
 	}
-	switch rapid.SampledFrom([]string{"min", "min", "min", "more", "limit", "limit+1", "low"}).Draw(rt, "gasKind") {
+	switch rapid.SampledFrom([]string{"min", "min", "min", "min", "min", "min", "min", "min", "more", "more", "more", "limit", "limit", "limit+1", "low"}).Draw(rt, "gasKind") {
 	case "more":
 		gas += 30000
 	case "limit":
@@ -340,7 +340,7 @@ func (m *c41Machine) genTx() (*types.Transaction, int) {
 	gasCost := new(big.Int).Mul(feeCap, new(big.Int).SetUint64(gas))
 	room := new(big.Int).Sub(st.balance.ToBig(), gasCost)
 	var value *big.Int
-	switch rapid.SampledFrom([]string{"zero", "zero", "small", "small", "exact", "exact+1", "half", "huge"}).Draw(rt, "valueKind") {
+	switch rapid.SampledFrom([]string{"zero", "zero", "zero", "zero", "small", "small", "small", "small", "exact", "exact", "exact+1", "half", "half", "third", "huge"}).Draw(rt, "valueKind") {
 	case "zero":
 		value = new(big.Int)
 	case "small":
@@ -351,6 +351,8 @@ func (m *c41Machine) genTx() (*types.Transaction, int) {
 		value = new(big.Int).Add(room, big.NewInt(1))
 	case "half":
 		value = new(big.Int).Rsh(room, 1)
+	case "third":
+		value = new(big.Int).Div(room, big.NewInt(3))
 	default:
 		value = new(big.Int).Lsh(big.NewInt(1), 200)
 	}
@@ -394,18 +396,8 @@ func (m *c41Machine) genTx() (*types.Transaction, int) {
 	if err != nil {
 		rt.Fatalf("VERIF-HARNESS-BUG: sign: %v", err)
 	}
-	if m.log[ai][nonce] == nil {
-		m.log[ai] = c41CopyOrInit(m.log[ai])
-	}
 	m.log[ai][nonce] = append(m.log[ai][nonce], tx)
 	return tx, ai
-}
-
-func c41CopyOrInit(x map[uint64][]*types.Transaction) map[uint64][]*types.Transaction {
-	if x == nil {
-		return map[uint64][]*types.Transaction{}
-	}
-	return x
 }
 
 func c41TxString(tx *types.Transaction) string {
@@ -577,7 +569,7 @@ func (m *c41Machine) actAddBatch(c *vs.Case, sync bool) {
 }
 
 func (m *c41Machine) actSetGasTip(c *vs.Case) {
-	tip := rapid.SampledFrom([]uint64{1, 1, 2, 10, 11, 50, 100, 1000}).Draw(m.rt, "gasTip")
+	tip := rapid.SampledFrom([]uint64{1, 1, 1, 2, 3, 10, 11, 50}).Draw(m.rt, "gasTip")
 	m.pool.SetGasTip(new(big.Int).SetUint64(tip))
 	m.tracef("setGasTip %d", tip)
 	c.Class("setGasTip")
@@ -614,12 +606,13 @@ func (m *c41Machine) mutateState(base [c41NAcct]c41AcctState, included [c41NAcct
 		if included[i] == 0 && rapid.IntRange(0, 14).Draw(rt, label+"ExtraNonce") == 0 {
 			st[i].nonce++ // an authorization applied / a tx unknown to the pool
 		}
-		switch rapid.SampledFrom([]string{"keep", "keep", "keep", "keep", "big", "zero", "cost", "cost-1", "twocost"}).Draw(rt, label+"Balance") {
+		balKind := rapid.SampledFrom([]string{"keep", "keep", "keep", "keep", "keep", "keep", "keep", "keep", "big", "big", "big", "zero", "cost", "cost", "twocost"}).Draw(rt, label+"Balance")
+		switch balKind {
 		case "big":
 			st[i].balance = c41BigBalance.Clone()
 		case "zero":
 			st[i].balance = new(uint256.Int)
-		case "cost", "cost-1", "twocost":
+		case "cost", "twocost":
 			// balance at the cost of some generated transaction of this account
 			var nonces []uint64
 			for n := range m.log[i] {
@@ -635,6 +628,11 @@ func (m *c41Machine) mutateState(base [c41NAcct]c41AcctState, included [c41NAcct
 			cost, overflow := uint256.FromBig(tx.Cost())
 			if overflow {
 				break
+			}
+			if balKind == "twocost" {
+				if _, o := cost.AddOverflow(cost, cost); o {
+					break
+				}
 			}
 			st[i].balance = cost
 		}
@@ -1031,7 +1029,7 @@ func c41Run(rt *rapid.T, st *vs.S) {
 	for i := range gst {
 		gst[i] = c41AcctState{nonce: uint64(rapid.SampledFrom([]int{0, 0, 1, 7}).Draw(rt, "genesisNonce")), balance: c41BigBalance.Clone()}
 	}
-	gst[1].delegated = true // one account starts with a delegation
+	gst[1].delegated = rapid.Bool().Draw(rt, "genesisDelegated") // one account may start with a delegation
 	chain.genesis = chain.newBlock(nil, nil, 3000000, 1500000, big.NewInt(10), gst)
 	chain.head = chain.genesis
 
@@ -1051,7 +1049,7 @@ func c41Run(rt *rapid.T, st *vs.S) {
 
 	steps := rapid.IntRange(5, 40).Draw(rt, "steps")
 	for s := 0; s < steps; s++ {
-		switch rapid.SampledFrom([]string{"add", "add", "add", "add", "add", "add", "batch", "batch", "batchAsync",
+		switch rapid.SampledFrom([]string{"add", "add", "add", "add", "add", "add", "add", "add", "batch", "batch", "batch", "batchAsync",
 			"setGasTip", "newHead", "newHead", "reorg", "reorg", "idle", "validate"}).Draw(rt, "action") {
 		case "add":
 			m.actAddOne(c)
